@@ -10,11 +10,17 @@ OBLIGATIONS = [
   Ob('C03.eb_attr_claim', 'C03/ebattr.cc', 'h_eb_attr_claim', tier='quick', unwind=6, defines={'NB': 4, 'NSLOT': 2}, max_alloc=32, ub=True, flavour='nospec',
      bound='4 symbolic header bytes (symbolic length), every bitstream version 1.2..2.2, 0..2 attribute-data slots with arbitrary binding state, decoder id 0..7; headers that go on to build a traversal sequencer are cut',
      covers='MeshEdgebreakerDecoderImpl<MeshEdgebreakerTraversalDecoder>::CreateAttributesDecoder (slot binding, range and re-binding guards, traversal-method validation) on the real decoder objects'),
-  Ob('C03.eb_assign', 'C03/ebassign.cc', 'h_eb_assign', tier='quick', unwind=7,
-     unwindset=[AP + '.3:3', AP + '.5:3', AP + '.4:2', AP + '.6:2', AP + '.2:2'], defines={'NF': 2, 'NV': 4, 'NA': 1}, max_alloc=64, mem_gb=20, timeout=900,
+]
+for nm, tier, defs, be, to, pre in (('eb_assign', 'quick', {'PREFIX': 0}, 'minisat', 900, 'no point created before'),
+                                ('eb_assign_p16', 'quick', {'PREFIX': 65535}, 'minisat', 900, '65535 points created before (new ids cross the 16-bit boundary)'),
+                                ('eb_assign_any', 'thorough', {'ANY_PREFIX': 1}, 'kissat', 1700, 'ANY number (< 2^31) of points created before')):
+    d = {'NF': 2, 'NV': 4, 'NA': 1}; d.update(defs)
+    OBLIGATIONS.append(Ob('C03.' + nm, 'C03/ebassign.cc', 'h_eb_assign', tier=tier, unwind=7, defines=d, max_alloc=64, mem_gb=20, timeout=to, backend=be,
+     unwindset=[AP + '.3:3', AP + '.5:3', AP + '.4:2', AP + '.6:2', AP + '.2:2'],
      stubs={'_ZNSt6vectorIbSaIbEE13_M_insert_auxESt13_Bit_iteratorb': 'unreachable'},
-     bound='ANY corner table of 2 faces over <= 4 vertices satisfying the C13 invariants (assumed), 0..1 attribute connectivity with arbitrary corner->vertex map and seam flags, arbitrary boundary flags',
-     covers='MeshEdgebreakerDecoderImpl<MeshEdgebreakerTraversalDecoder>::AssignPointsToCorners on real Mesh / MeshEdgebreakerDecoder / CornerTable / MeshAttributeCornerTable objects; Mesh::SetNumFaces, SetFace, PointCloud::set_num_points'),
+     bound='ANY corner table of 2 faces over <= 4 vertices satisfying the C13 invariants (assumed), 0..1 attribute connectivity with arbitrary corner->vertex map and seam flags, arbitrary boundary flags, ' + pre,
+     covers='MeshEdgebreakerDecoderImpl<MeshEdgebreakerTraversalDecoder>::AssignPointsToCorners on real Mesh / MeshEdgebreakerDecoder / CornerTable / MeshAttributeCornerTable objects; Mesh::SetNumFaces, SetFace, PointCloud::set_num_points'))
+OBLIGATIONS += [
 ]
 META = {
   'assumptions': ['C03.seq_conn: compressed-index path (DecodeSymbols) cut by a stub returning false',
